@@ -380,6 +380,8 @@ class Interp:
             raise _Continue()
         elif isinstance(s, (ast.FunctionDef,)):
             env.vars[s.name] = Closure(s, env, self)
+        elif isinstance(s, (ast.ImportFrom, ast.Import)):
+            pass   # function-local imports: the names are resolved through the models the rule supplies (unknown name otherwise)
         else:
             raise AnalysisError(f"absint: unsupported statement {type(s).__name__}: {src(s)[:60]}")
 
